@@ -8,6 +8,9 @@ CONSTANTS
   PartialAccept = TRUE
   ArriveWhole = TRUE
   CommitOnAccept = TRUE
+  MaxAbandon = 1
+  Vectored = FALSE
+  ReuseStalled = FALSE
 SPECIFICATION Spec
 INVARIANTS C05 Export
 CHECK_DEADLOCK FALSE
